@@ -670,6 +670,29 @@ fn fn_json<'tcx>(tcx: TyCtxt<'tcx>, id: LocalDefId) -> Option<J> {
     }
     v.push(("debug_places", J::Arr(upv)));
     v.push(("blocks", cx.blocks()));
+    // promoted constants that are a unit-like variant of an enum (`&Mode::Create` in `mode == Mode::Create`): index -> (adt, variant index),
+    // so that constant specialisation can evaluate a derived `==` against them
+    let mut proms = Vec::new();
+    for (pi, pbody) in tcx.promoted_mir(def_id).iter_enumerated() {
+        for bbd in pbody.basic_blocks.iter() {
+            for st in bbd.statements.iter() {
+                if let StatementKind::Assign(bx) = &st.kind {
+                    if let Rvalue::Aggregate(kind, ops) = &bx.1 {
+                        if let AggregateKind::Adt(adt_id, vi, _, _, _) = &**kind {
+                            if ops.is_empty() && tcx.adt_def(*adt_id).is_enum() {
+                                proms.push(J::Obj(vec![
+                                    ("i", J::Int(pi.as_u32() as i128)),
+                                    ("adt", J::s(path_of(tcx, *adt_id))),
+                                    ("vi", J::Int(vi.as_u32() as i128)),
+                                ]));
+                            }
+                        }
+                    }
+                }
+            }
+        }
+    }
+    v.push(("promoted", J::Arr(proms)));
     Some(J::Obj(v))
 }
 
